@@ -12,6 +12,22 @@ COMMON_NOTE = ("Trusted base: Lean 4.33 kernel; axioms ⊆ {propext, Classical.c
                "by exact-float inputs or bounded by a tolerance. ")
 
 CLAIMS = {
+    'C19': dict(
+        text="Theorems (Props/C19.lean, 16, over Rat, none partial): half-to-even rounding spec; every point lies within one voxel size per "
+             "axis of its voxel in the VoxelNeuron's own coordinates exactly as neuron2voxels indexes (round(p/pitch) − round(lo/pitch)); "
+             "in-bounds points get 0 ≤ idx < shape and are covered by a filled voxel; filled voxels stay inside the grid and the requested "
+             "extent; counts=True total = number of points whose voxel is in the grid (the code as written agrees whenever it does not "
+             "raise); neuron2tangents = one entry per non-degenerate edge at the midpoint with vector child − parent and exact squared "
+             "length; k = min(n, k); alpha ∈ [0,1] with equality cases; NaN rows dropped; collinear neighbourhoods have the line as "
+             "principal axis; the run-time checkers coversB/insideB are sound and the model passes them. Tie: exact differential "
+             "correspondence of navis.voxelize (3 neuron types, all pitch/bounds/units/counts forms, .5 ties) and make_dotprops(skeleton, k=0) "
+             "with the model; Lean checkers evaluated on navis' own grids.",
+        note="make_dotprops(k>0) tangents/alpha are TESTED (1e-8) against the exact Fraction inertia matrix of exactly recomputed neighbours; "
+             "KD-tree, SVD, marching cubes, tube meshing and skeletor are external numerics — tube / voxel-mesh / mesh→skeleton clauses are "
+             "oracle-only tests. Six open findings (counts/vectors with clipping bounds raise, tangent orientation sign, inf rows, NaN alpha "
+             "for zero-variance neighbourhoods, isolated nodes in tube meshes).",
+        technique="Lean 4 proof over Rat/Int voxel + tangent model + exact differential correspondence",
+        ref="§5 C19"),
     'C08': dict(
         text="Theorems (Props/C08.lean, 29, unbounded, none partial): exact rational affine maps — `-T` is the two-sided inverse for det ≠ 0, "
              "matrix product = sequential application; the TransformSequence loop as written (NaN mask, write-back) equals the row-wise fold "
